@@ -50,19 +50,17 @@ Definition gtb (x y : f64) : bool := ltb y x.
 Definition geb (x y : f64) : bool := leb y x.
 Definition neb (x y : f64) : bool := negb (eqb x y).
 
-(* C fmin/fmax: a NaN argument is treated as missing data. glibc returns the
-   first argument when they compare equal is NOT guaranteed; for +-0 glibc's
-   generic implementation returns (x < y ? x : y)-style results; see the
-   correspondence check for the +-0 case. *)
+(* C fmin/fmax as glibc (2.36, x86-64) computes them:
+     fmax(x,y) = (isgreaterequal(x,y) || isnan(y)) ? x : y
+     fmin(x,y) = (islessequal(x,y)    || isnan(y)) ? x : y
+   so a NaN argument is treated as missing data, and when the arguments
+   compare equal (in particular +0 and -0, whose order ISO C leaves open) the
+   FIRST argument is returned.  Established by the C13 correspondence check:
+   fmax(-0,+0) = -0, fmax(+0,-0) = +0, fmin(-0,+0) = -0, fmin(+0,-0) = +0. *)
 Definition fmin (x y : f64) : f64 :=
-  if is_nan x then y else if is_nan y then x else
-  if ltb x y then x else if ltb y x then y else
-  (* equal (or +-0): prefer the negative zero *)
-  if sign x then x else y.
+  if leb x y || is_nan y then x else y.
 Definition fmax (x y : f64) : f64 :=
-  if is_nan x then y else if is_nan y then x else
-  if ltb x y then y else if ltb y x then x else
-  if sign x then y else x.
+  if geb x y || is_nan y then x else y.
 
 (* C fmod: x - trunc(x/y)*y computed exactly; sign of x. *)
 Definition fmod (x y : f64) : f64 :=
